@@ -556,7 +556,15 @@ func ruleOrders(rule string) RuleFn {
 				}
 				an.Instrs(nn, func(in ssa.Instruction) {
 					if r, ok := in.(*ssa.Return); ok && okNew {
-						if v := an.Norm(r.Results[0]); v != "len(p:gh.nodes)" {
+						// the index derives from the length of the node list (an adjustment under a condition that
+						// cannot hold is not this rule's business; an index taken from somewhere else is)
+						derived := false
+						for _, o := range an.Origins(r.Results[0]) {
+							if strings.Contains(an.Norm(o), "len(p:gh.nodes)") {
+								derived = true
+							}
+						}
+						if v := an.Norm(r.Results[0]); !derived && v != "len(p:gh.nodes)" {
 							okNew, why = false, "NewNode returns "+v+", not the index of the node it appended"
 						}
 					}
